@@ -287,7 +287,11 @@ func genHdr(r *rand.Rand, sid int64) (hdr, string) {
 
 		return p
 	}
-	switch r.Intn(9) {
+	k := r.Intn(12)
+	if k >= 9 { // an element under the stream's own id is already there: first / middle / last / sole, both profiles
+		return genSameID(r, h, sid)
+	}
+	switch k {
 	case 0:
 		return hdr{Nil: true}, "nil-header"
 	case 1, 2:
@@ -333,6 +337,66 @@ func genHdr(r *rand.Rand, sid int64) (hdr, string) {
 
 		return h, "empty-two-byte"
 	}
+}
+
+// genSameID fills h with an extension block that ALREADY carries an element under id (a forwarded / re-sent
+// packet): the element is the first, a middle, the last or the sole element, in the one- or the two-byte profile;
+// its old value has the length of the transport-cc value (2) or another length.
+func genSameID(r *rand.Rand, h hdr, sid int64) (hdr, string) {
+	id := sid
+	if id == 0 {
+		id = int64(1 + r.Intn(14)) // not negotiated: any element will do
+	}
+	two := id > 14 || r.Intn(2) == 0
+	h.Ext, h.Profile = true, 0xBEDE
+	prof := "one-byte"
+	maxLen, maxID := 16, 14
+	if two {
+		h.Profile, prof = 0x1000, "two-byte"
+		maxLen, maxID = 40, 14
+		if r.Intn(2) == 0 {
+			maxID = 255
+		}
+	}
+	pay := func(n int) []int64 {
+		p := make([]int64, n)
+		for i := range p {
+			p[i] = int64(r.Intn(256))
+		}
+
+		return p
+	}
+	own := ext{ID: id, Payload: pay(2)}
+	if r.Intn(4) == 0 {
+		own.Payload = pay([]int{1, 3, 4, 2 + r.Intn(maxLen-1)}[r.Intn(4)])
+	}
+	pos := []string{"first", "middle", "last", "sole"}[r.Intn(4)]
+	used := map[int64]bool{id: true}
+	other := func(n int) []ext {
+		var out []ext
+		for len(out) < n {
+			x := int64(1 + r.Intn(maxID))
+			if used[x] {
+				continue
+			}
+			used[x] = true
+			out = append(out, ext{ID: x, Payload: pay(1 + r.Intn(maxLen))})
+		}
+
+		return out
+	}
+	switch pos {
+	case "first":
+		h.Exts = append([]ext{own}, other(1+r.Intn(3))...)
+	case "middle":
+		h.Exts = append(append(other(1+r.Intn(2)), own), other(1+r.Intn(2))...)
+	case "last":
+		h.Exts = append(other(1+r.Intn(3)), own)
+	default:
+		h.Exts = []ext{own}
+	}
+
+	return h, "same-id-" + pos + "-" + prof
 }
 
 func genSeq(r *rand.Rand) (seqCase, []string) {
@@ -473,8 +537,8 @@ func main() {
 	r := o.Rand()
 	var fails []cq.ImplFailure
 	seq := &cq.Set{
-		Name: "c15seq", Import: "IV.Check.C15Check", CaseType: "seq_case",
-		Checks: []string{"seq_mismatches", "seq_spec_failures"},
+		Name: "c15seq", Import: "IV.Check.C15WireCheck", CaseType: "seq_case",
+		Checks: []string{"seq_mismatches", "seq_spec_failures", "seq_order_failures"},
 	}
 	long := &cq.Set{
 		Name: "c15long", Import: "IV.Check.C15Check", CaseType: "long_case",
@@ -485,14 +549,18 @@ func main() {
 		Checks: []string{"conc_spec_failures"},
 	}
 	life := &cq.Set{
-		Name: "c15life", Import: "IV.Check.C15LifeCheck", CaseType: "life_case",
-		Checks: []string{"life_mismatches", "life_spec_failures"},
+		Name: "c15life", Import: "IV.Check.C15WireCheck", CaseType: "life_case",
+		Checks: []string{"life_mismatches", "life_spec_failures", "life_order_failures"},
 	}
 	mconc := &cq.Set{
 		Name: "c15mconc", Import: "IV.Check.C15Check", CaseType: "conc_case",
 		Checks: []string{"conc_spec_failures"},
 	}
-	all := []*cq.Set{seq, long, conc, life, mconc}
+	wire := &cq.Set{
+		Name: "c15wire", Import: "IV.Check.C15WireCheck", CaseType: "wire_case",
+		Checks: []string{"wire_mismatches", "wire_spec_failures"},
+	}
+	all := []*cq.Set{seq, long, conc, life, mconc, wire}
 	if o.Replay != "" {
 		var probe map[string]interface{}
 		switch cq.LoadReplay(o.Replay, &probe) {
@@ -500,6 +568,10 @@ func main() {
 			var c lifeCase
 			cq.LoadReplay(o.Replay, &c)
 			life.Cases = append(life.Cases, runLife(c, r, &fails).toCase("replay"))
+		case "c15wire":
+			var c wireCase
+			cq.LoadReplay(o.Replay, &c)
+			wire.Cases = append(wire.Cases, runWire(c, r, &fails).toCase("replay"))
 		case "c15mconc":
 			var c mconcCase
 			cq.LoadReplay(o.Replay, &c)
@@ -536,6 +608,10 @@ func main() {
 			var c lifeCase
 			cq.LoadReplay(f, &c)
 			life.Cases = append(life.Cases, runLife(c, r, &fails).toCase("corpus"))
+		case "c15wire":
+			var c wireCase
+			cq.LoadReplay(f, &c)
+			wire.Cases = append(wire.Cases, runWire(c, r, &fails).toCase("corpus"))
 		}
 	}
 	n := o.Scale(2500, 40000)
@@ -580,12 +656,19 @@ func main() {
 			mconc.Cases = append(mconc.Cases, x.toCase())
 		}
 	}
+	// wire image of the header before / after the interceptor, half of the packets already carrying the negotiated id
+	nw := o.Scale(250, 8000)
+	for i := 0; i < nw; i++ {
+		c, bs := genWire(r)
+		wire.Cases = append(wire.Cases, runWire(c, r, &fails).toCase(bs...))
+	}
 	cq.Write(o, "seq: 1..4 streams (negotiated ids 1..14, two entries, not negotiated, ids 0/15/16/255/256/261) x 1..40 writes over header shapes "+
-		"(nil, no extension, one-byte others/same id, two-byte, RFC3550 profile, empty blocks), payload 0..1460, every 11th downstream write failing; "+
+		"(nil, no extension, one-byte others/same id, two-byte, RFC3550 profile, empty blocks, element under the stream's own id already present as first/middle/last/sole element in one-/two-byte profile), payload 0..1460, every 11th downstream write failing; "+
 		"non-trivial = at least 2 forwarded packets; long: >2^16 writes on one stream; conc: 2/4/16 goroutines x >=70000 writes over 1..4 streams; "+
 		"life: histories of API calls (NewInterceptor via factory / Registry.Build / zero value on 1..2 factories and 1..3 instances, BindLocalStream, "+
 		"UnbindLocalStream, writes through current and held writers, Close, BindRemoteStream/UnbindRemoteStream/BindRTCPReader/BindRTCPWriter) over 1..7 stream handles, "+
 		"scenarios (interleaved instances of one factory, unbind-all then bind again / held writers, close, bind-unbind churn) and free random walks; "+
-		"mconc: 2..3 instances of one factory x 2/4/8 goroutines each x >2^16 writes per instance, with and without a lifecycle goroutine per instance",
+		"mconc: 2..3 instances of one factory x 2/4/8 goroutines each x >2^16 writes per instance, with and without a lifecycle goroutine per instance; "+
+		"wire: one negotiated stream, 1..10 packets, marshalled header before and after (half of the packets already carry an element under the negotiated id)",
 		all, nil, fails)
 }
